@@ -21,9 +21,8 @@
                                           any other exception (a run-time error) leaves WITHOUT popping.
 
    A method body is abstracted to the statements that read or change the type context: an observation of a type
-   name (sizeof(ty), new ty, a declaration: everything that goes through resolve_type_in_context), the
-   declaration of a struct-typed local (its struct_type_name is resolved in the context active at the
-   declaration), a method call on a variable, an early return, a run-time error.
+   name (sizeof(ty), new ty: everything that goes through resolve_type_in_context), the declaration of a
+   struct-typed local, a method call on a variable, a function call, an early return, a run-time error.
 
    Definitions only (total, computable, extractable). *)
 From Coq Require Import String Ascii List Bool Arith ZArith NArith.
@@ -128,7 +127,9 @@ Definition resolve_type_in_context (st : stack) (s : str) : str := resolve_cur (
 (* ------------------------------------------------------------------ programs *)
 Inductive act : Type :=
 | AObs (ty : str)            (* sizeof(ty) / new ty / ...: the name resolved in the current context is observed *)
-| ADecl (v ty : str)         (* `ty v;` a struct-typed local: its struct type name is resolved when declared *)
+| ADecl (v ty : str)         (* `ty v;` a struct-typed local: its struct type name is the declared text AS WRITTEN
+                                (declaration.cpp: var.struct_type_name = node->type_name; only a pointer to a generic
+                                struct goes through resolve_type_in_context) *)
 | ACall (v m : str)          (* v.m(n - 1, ...) on a parameter, a local or self *)
 | AFn (g : str)              (* g(n - 1, ...): a plain function, or an instance of a generic function (its body is
                                 the substituted copy Model.instantiate builds): nothing is pushed or popped, the
@@ -188,8 +189,15 @@ Fixpoint find_plain (P : program) (name : str) : option block :=
   | b :: r => if str_eqb (b_base b) name && (List.length (b_params b) =? 0) then Some b else find_plain r name
   end.
 
-(* a run-time instance of a generic impl: the block it came from and its type_parameter_map *)
-Record inst : Type := { i_block : nat; i_map : tctx }.
+(* what find_impl_for_struct answers: the block, the type_parameter_map, and is_generic_instance *)
+Record inst : Type := { i_block : nat; i_map : tctx; i_generic : bool }.
+
+Fixpoint strs_eqb (a b : list str) : bool :=
+  match a, b with
+  | [], [] => true
+  | x :: r, y :: s => str_eqb x y && strs_eqb r s
+  | _, _ => false
+  end.
 
 (* the instances appended to impl_definitions_ so far, searched by exact struct type name *)
 Definition icache := list (str * inst).
@@ -200,7 +208,10 @@ Fixpoint lookup_inst (ic : icache) (name : str) : option inst :=
   | (k, v) :: r => if str_eqb name k then Some v else lookup_inst r name
   end.
 
-(* the instance find_impl_for_struct builds for a struct type name when nothing is registered yet *)
+(* the instance find_impl_for_struct builds for a struct type name when nothing is registered yet.  When the type
+   arguments are the block's own parameters ("Cell<T>" asked of impl ... for Cell<T>: a local declared with the
+   generic spelling inside the block) the instantiated names are the generic impl's own names, the search among
+   the registered impls finds the GENERIC impl itself and answers it: is_generic_instance is false *)
 Definition fresh_inst (P : program) (name : str) : option inst :=
   match impl_type_args name with
   | None => None
@@ -208,7 +219,8 @@ Definition fresh_inst (P : program) (name : str) : option inst :=
   | Some (base, args) =>
       match find_generic P base (List.length args) with
       | None => None
-      | Some (k, b) => Some {| i_block := k; i_map := build_map (b_params b) args |}
+      | Some (k, b) => Some {| i_block := k; i_map := build_map (b_params b) args;
+                               i_generic := negb (strs_eqb args (b_params b)) |}
       end
   end.
 
@@ -217,22 +229,23 @@ Definition find_impl_for_struct (P : program) (ic : icache) (name : str) : icach
   | Some i => (ic, Some i)
   | None =>
       match fresh_inst P name with
-      | Some i => (ic ++ [(name, i)], Some i)
+      | Some i => (if i_generic i then ic ++ [(name, i)] else ic, Some i)
       | None => (ic, None)
       end
   end.
 
 (* ------------------------------------------------------------------ the method-call path (call_impl.cpp) *)
 (* which method runs for `v.m(...)` on a receiver of struct type rty, and the context pushed for it:
-   a name with '<' goes through find_impl_for_struct and pushes the instance's context; a plain struct
-   pushes nothing (the callee then runs under whatever context the caller left on the stack) *)
+   a name with '<' goes through find_impl_for_struct and pushes the context of a generic INSTANCE; a plain struct,
+   and the generic impl itself, push nothing (the callee then runs under whatever context the caller left on
+   the stack) *)
 Definition enter (P : program) (ic : icache) (rty m : str) : option (icache * option tctx * method) :=
   if has_char c_lt rty then
     match find_impl_for_struct P ic rty with
     | (ic1, Some i) =>
         match nth_error P (i_block i) with
         | Some b => match lookup_method (b_methods b) m with
-                    | Some md => Some (ic1, Some (i_map i), md)
+                    | Some md => Some (ic1, if i_generic i then Some (i_map i) else None, md)
                     | None => None
                     end
         | None => None
@@ -277,7 +290,7 @@ Fixpoint run (fuel : nat) (P : program) (st : stack) (ic : icache) (env : list (
           let x := run f P st ic env n r in
           {| r_out := resolve_type_in_context st ty :: r_out x; r_stack := r_stack x; r_cache := r_cache x;
              r_flag := r_flag x |}
-      | ADecl v ty :: r => run f P st ic ((v, resolve_type_in_context st ty) :: env) n r
+      | ADecl v ty :: r => run f P st ic ((v, ty) :: env) n r
       | ARetIf k :: r =>
           if n <=? k then {| r_out := []; r_stack := st; r_cache := ic; r_flag := FRet |}
           else run f P st ic env n r
@@ -327,7 +340,7 @@ Fixpoint run_mono (fuel : nat) (P : program) (cur : option tctx) (ic : icache) (
       | AObs ty :: r =>
           let x := run_mono f P cur ic env n r in
           {| q_out := resolve_cur cur ty :: q_out x; q_cache := q_cache x; q_flag := q_flag x |}
-      | ADecl v ty :: r => run_mono f P cur ic ((v, resolve_cur cur ty) :: env) n r
+      | ADecl v ty :: r => run_mono f P cur ic ((v, ty) :: env) n r
       | ARetIf k :: r =>
           if n <=? k then {| q_out := []; q_cache := ic; q_flag := FRet |}
           else run_mono f P cur ic env n r
